@@ -175,6 +175,9 @@ def build(repo, outdir, stub=(), nohints=()):
                             (r'^struct BoundSet', 'BoundSet', ('Clone', 'Hash')), (r'^pub struct Range', 'Range', ('Clone', 'Hash')),
                             (r'^struct Partial', 'Partial', ('Clone',)), (r'^enum Operation', 'Operation', ('Hash',))):
         sl = item(RNG, hdr, 'type ' + nm)
+        if nm in ('Predicate', 'Bound', 'BoundSet', 'Range') and 'PartialEq' not in derive_list(sl):
+            # `==` on these types is modelled as the derived, structural one (pred_eq / bound_eq); a hand written impl is outside that model
+            g.lost_items.append(('impl ' + nm, 'derive(PartialEq) on %s replaced: the structural equality model (A6) no longer applies' % nm))
         strip_derive(sl, drop)
         pubify(sl)
         g.rec(sl, 'type ' + nm, 'root', 'type')
